@@ -423,6 +423,20 @@ pub fn cases(ctx: &Ctx) -> Vec<Case> {
         let forge = if i % 9 == 0 { Some(rng.pick(&forges).clone()) } else { None };
         v.push(Case { base: Base::Prog(p), forge, muts, ops_seed: rng.next() });
     }
+    // (2b) two compression blocks: the footers are read from the last block only, so a corruption in the
+    // first block lets the archive open and fails later, in the middle of a read (after-error histories)
+    let nbig = if ctx.quick() { 64 } else { 1500 };
+    for i in 0..nbig {
+        let layers = if i % 2 == 0 { 3 } else { 2 };
+        let p = single_file(layers, 1, Sz::new(1, 1, 4000), DataKind::Random, ctx.seed ^ 0xB16);
+        let lvl = if i % 5 == 4 { Level::Comp } else { Level::Raw };
+        let m = match i % 3 {
+            0 => Mut::Flip(Pos::Permille(50 + rng.below(800) as u32), rng.below(8) as u8),
+            1 => Mut::Set(Pos::Permille(50 + rng.below(800) as u32), rng.below(256) as u8),
+            _ => Mut::Splice { src: Pos::Permille(rng.below(900) as u32), dst: Pos::Permille(50 + rng.below(800) as u32), len: 1 + rng.below(40) as u32 },
+        };
+        v.push(Case { base: Base::Prog(p), forge: None, muts: vec![(lvl, m)], ops_seed: rng.next() });
+    }
     // (3) raw random bytes, empty input, valid header + garbage
     v.push(Case { base: Base::Empty, forge: None, muts: vec![], ops_seed: 1 });
     let nr = if ctx.quick() { 1500 } else { 60_000 };
